@@ -593,6 +593,13 @@ func (e *xfEngine) update(fn *ssa.Function) bool {
 					}
 				}
 				for _, g := range callees {
+					if g != nil && !load.FuncInModule(g) && g.Pkg != nil && isThirdParty(g.Pkg.Pkg.Path()) {
+						// code the library does not control and that documents no panic-freedom: any value may
+						// be raised from inside it (reggen, for one, panics with strings on some patterns)
+						id := "ext:" + g.Pkg.Pkg.Path() + "." + g.Name()
+						emit(x, xfClass(string(xNon)+"@"+id), fmt.Sprintf("call of third-party %s.%s at %s in %s", g.Pkg.Pkg.Path(), g.Name(), e.c.Pos(x.Pos()), load.FuncKey(fn)))
+						continue
+					}
 					if g == nil || !load.FuncInModule(g) || load.IsAux(load.FuncPkgRel(g)) {
 						continue
 					}
@@ -604,6 +611,19 @@ func (e *xfEngine) update(fn *ssa.Function) bool {
 		}
 	}
 	return changed
+}
+
+// isThirdParty: an import path outside the standard library (first element has a dot) and outside
+// this module.
+func isThirdParty(path string) bool {
+	if strings.HasPrefix(path, load.Module) {
+		return false
+	}
+	first := path
+	if i := strings.Index(path, "/"); i >= 0 {
+		first = path[:i]
+	}
+	return strings.Contains(first, ".")
 }
 
 // --- rules -------------------------------------------------------------------------------------
@@ -742,6 +762,10 @@ func runXFescape(c *load.Ctx, r *report.RuleResult, only func(*ssa.Function) boo
 				if _, ok := xfAssertions[id]; ok {
 					reviewed++
 					usedAssertions[id] = true
+					continue
+				}
+				if strings.HasPrefix(id, "ext:") {
+					bad = append(bad, fmt.Sprintf("a panic raised inside third-party code (%s) is stopped by no handler on the way out: %s", strings.TrimPrefix(id, "ext:"), why))
 					continue
 				}
 				bad = append(bad, fmt.Sprintf("unreviewed assertion panic %s: %s", id, why))
